@@ -45,6 +45,76 @@ def _worker(i):
     return d
 
 
+def _child(i, conn):
+    try:
+        d = _worker(i)
+    except BaseException as e:  # pragma: no cover
+        d = {"unit": "?", "prop": "", "obligations": [], "errors": ["crash: %r" % (e,)], "paths": 0, "targets": [], "uses": [], "case": "",
+             "covers": {}, "time": 0, "solver_time": 0, "cut": 0, "infeasible": 0, "raised": {}, "notes": [], "name": "?", "inline": [],
+             "index": _worker.index[i], "wall": 0}
+    try:
+        conn.send(d)
+    finally:
+        conn.close()
+
+
+def _run_units(idx, jobs, verbose, unit_limit):
+    """one forked process per unit, at most `jobs` at a time, each with a hard wall-clock limit: a solver call that does
+    not come back (z3 is not interruptible everywhere) costs that unit its verdict (UNDECIDED), never the whole check"""
+    from pyvc import api
+
+    ctx = mp.get_context("fork")
+    pending = list(range(len(idx)))
+    running = {}
+    results = []
+    while pending or running:
+        while pending and len(running) < jobs:
+            i = pending.pop(0)
+            rd, wr = ctx.Pipe(duplex=False)
+            pr = ctx.Process(target=_child, args=(i, wr))
+            pr.start()
+            wr.close()
+            running[i] = (pr, rd, time.time())
+        done = []
+        for i, (pr, rd, t0) in running.items():
+            d = None
+            if rd.poll(0.02):
+                try:
+                    d = rd.recv()
+                except EOFError:
+                    d = None
+                pr.join(5)
+                if d is None:
+                    d = _lost(api, idx[i], "worker process ended without a result")
+            elif not pr.is_alive():
+                pr.join(1)
+                d = _lost(api, idx[i], "worker process died (exit code %s)" % pr.exitcode)
+            elif time.time() - t0 > unit_limit:
+                pr.terminate()
+                pr.join(5)
+                if pr.is_alive():
+                    pr.kill()
+                d = _lost(api, idx[i], "unit exceeded its wall-clock limit of %ds (a solver call did not return)" % unit_limit)
+            if d is not None:
+                done.append(i)
+                results.append(d)
+                if verbose:
+                    print("  unit %-70s paths=%-4d obl=%-3d %.1fs %s" % (
+                        d["unit"], d["paths"], len(d["obligations"]), d["wall"], "ERR" if d["errors"] else ""))
+        for i in done:
+            running.pop(i)
+        if not done:
+            time.sleep(0.05)
+    return results
+
+
+def _lost(api, index, why):
+    u = api.UNITS[index]
+    return {"unit": u.full, "prop": u.prop, "obligations": [], "errors": ["undecided: " + why], "paths": 0, "targets": [], "uses": list(u.uses),
+            "case": u.label, "covers": {}, "time": 0, "solver_time": 0, "cut": 0, "infeasible": 0, "raised": {}, "notes": [], "name": u.full,
+            "inline": [], "index": index, "wall": 0}
+
+
 def main():
     ap = argparse.ArgumentParser()
     ap.add_argument("prop")
@@ -86,13 +156,7 @@ def main():
     _worker.index = idx
     results = []
     if idx:
-        ctx = mp.get_context("fork")
-        with ctx.Pool(min(args.jobs, len(idx))) as pool:
-            for d in pool.imap_unordered(_worker, range(len(idx)), chunksize=1):
-                results.append(d)
-                if args.v:
-                    print("  unit %-70s paths=%-4d obl=%-3d %.1fs %s" % (
-                        d["unit"], d["paths"], len(d["obligations"]), d["wall"], "ERR" if d["errors"] else ""))
+        results = _run_units(idx, args.jobs, args.v, unit_limit=float(os.environ.get("PYVC_UNIT_LIMIT_S", "900" if tier == "quick" else "5400")))
     results.sort(key=lambda d: d["index"])
 
     # bounded stand-ins and extra finite checks registered by the contract module
